@@ -169,6 +169,37 @@ Definition highest_used (l : list (option Z)) : Z :=
   fst (fold_left (fun (acc : Z * Z) o => let (hi, i) := acc in
                     (match o with Some _ => i + 1 | None => hi end, i + 1)) l (0, 0)).
 
+(** attributes: an attribute is stored as ONE field of a Vdata, so it obeys the field limits whichever interface sets
+    it (SDsetattr, GRsetattr, Vsetattr, VSsetattr) and whether the name is new or the value of an existing name is
+    replaced: at least 1 and at most MAX_ORDER values, at most MAX_FIELD_SIZE bytes *)
+Definition s_attr_ok (nt count : Z) : bool :=
+  (0 <? ntsize nt) && (1 <=? count) && (count <=? MAX_ORDER) && (count * ntsize nt <=? MAX_FIELD_SIZE).
+(** SD attributes are kept with the file facts under a key made of file, object and name ([obj] -1 = the file,
+    i = data set i, 1000+i = first dimension of data set i; name 999 marks "the dimension has its coordinate
+    variable"); value = [(number type, count)] *)
+Definition attr_key (k obj a : Z) : Z := - (1 + ((k * 2000 + (obj + 1)) * 1000 + a)).
+Definition sd_obj_ok (sets : list (Z * Z)) (obj : Z) : bool :=
+  if obj =? -1 then true
+  else let i := if obj <? 1000 then obj else obj - 1000 in
+       match nthz sets i with
+       | Some (nl, rk) => (0 <=? nl) && ((obj <? 1000) || (1 <=? rk)) && (obj <? 1100)
+       | None => false
+       end.
+(** touching a dimension through an attribute call gives it a coordinate variable, which counts as a data set *)
+Definition sd_touch_dim (d : sdst) (k obj : Z) (sets : list (Z * Z)) : list (Z * list (Z * Z)) :=
+  if (1000 <=? obj) && match find (fun p => fst p =? attr_key k obj 999) (d_files d) with Some _ => false | None => true end
+  then (attr_key k obj 999, []) :: (k, sets ++ [(-1, 1)]) :: filter (fun p => negb (fst p =? k)) (d_files d)
+  else d_files d.
+(** the two-step attribute probes of the other interfaces: set a NEW name with [c1] values, set the same name again
+    with [c2] values, ask for the count: (first accepted, second accepted, count afterwards or -1) *)
+Definition s_attr2 (replace_any_count : bool) (nt c1 c2 : Z) : res :=
+  if ntsize nt <=? 0 then RUnspec else
+  let r1 := s_attr_ok nt c1 in
+  let r2 := if r1 && negb replace_any_count then c2 =? c1 else s_attr_ok nt c2 in
+  let b2z (b : bool) := if b then 1 else 0 in
+  ROk [Some (b2z r1); Some (b2z r2);
+       Some (if r1 && negb replace_any_count then c1 else if r2 then c2 else if r1 then c1 else -1)].
+
 Definition sd_do_open (d : sdst) (k : Z) : sdst * res :=
   match index_of (d_slots d) k 0 with
   | Some _ => (* a second SDstart of a file that is open: outside the property; nothing about file k is predicted any more *)
@@ -209,6 +240,8 @@ Inductive op :=
 | OSdLimit (n : Z) | OSdStart (k : Z) | OSdOpen (k : Z) | OSdEnd (k : Z) | OSdCreate (k nlen rank : Z)
 | OSdInfo (k : Z) | OSdName (k i : Z) | OSdMax (n : Z) | OSdGetMax | OSdNOpen
 | OSeekAt (tag ref app origin offset pos0 : Z) | OChunkFill (tag ref k : Z)
+| OSdAttr (k obj a nt count : Z) | OSdAttrInfo (k obj a : Z)
+| OGrAttr2 (nt c1 c2 : Z) | OVgAttr2 (v nt c1 c2 : Z) | OVsAttr2 (x nt c1 c2 : Z)
 | OOther.
 
 Definition state := (hst * vst * sdst)%type.
@@ -477,6 +510,16 @@ Definition step_v (h : hst) (v : vst) (o : op) : hst * vst * res :=
                                                                       (s_name s) (s_class s) true (s_w s) (s_aid s)))
                                        (slot_del (vsslot v) slot), ROk [])
       | None => (h, v, RUnspec) end
+  | OVgAttr2 slot nt c1 c2 =>
+      match get_vg v slot with
+      | Some _ => (mkH false 0 (h_ndds h) (h_free h) (-1) (h_elems h) (h_bulk h), v, s_attr2 false nt c1 c2)
+      | None => (h, v, RUnspec) end
+  | OVsAttr2 slot nt c1 c2 =>
+      match get_vs v slot with
+      | Some (_, s) => if s_w s then (mkH false 0 (h_ndds h) (h_free h) (-1) (h_elems h) (h_bulk h), v, s_attr2 false nt c1 c2)
+                       else (h, v, RUnspec)
+      | None => (h, v, RUnspec) end
+  | OGrAttr2 nt c1 c2 => (mkH false 0 (h_ndds h) (h_free h) (-1) (h_elems h) (h_bulk h), v, s_attr2 true nt c1 c2)
   | OVsAttach slot idx w =>
       match nthz (vss v) idx with
       | Some s => if s_stored s
@@ -516,13 +559,36 @@ Definition step_d (d : sdst) (o : op) : sdst * res :=
           then (mkD (d_sys d) (d_size d) (d_maxopen d) (d_slots d) (file_set d k (sets ++ [(nlen, rank)])), ROk [])
           else (d, RFail [])
       | _, _ => (d, RUnspec) end
+  | OSdAttr k obj a nt count =>
+      match index_of (d_slots d) k 0, file_get d k with
+      | Some _, Some sets =>
+          if negb (sd_obj_ok sets obj) || (ntsize nt <=? 0) || (a <? 0) || (990 <? a) then (d, RUnspec)
+          else if s_attr_ok nt count
+          then let fl := sd_touch_dim d k obj sets in
+               (mkD (d_sys d) (d_size d) (d_maxopen d) (d_slots d)
+                    ((attr_key k obj a, [(nt, count)]) :: filter (fun p => negb (fst p =? attr_key k obj a)) fl), ROk [])
+          else (d, RFail [])                     (* refused before the object is even looked up: nothing changes *)
+      | _, _ => (d, RUnspec) end
+  | OSdAttrInfo k obj a =>
+      match index_of (d_slots d) k 0, file_get d k with
+      | Some _, Some sets =>
+          if negb (sd_obj_ok sets obj) || (a <? 0) || (990 <? a) then (d, RUnspec)
+          else
+            let d' := mkD (d_sys d) (d_size d) (d_maxopen d) (d_slots d) (sd_touch_dim d k obj sets) in
+            match file_get d' (attr_key k obj a) with
+            | Some [(nt, count)] => (d', ROk [Some nt; Some count])
+            | _ => if 1000 <=? obj then (d', RUnspec) else (d, RFail [])
+            end
+      | _, _ => (d, RUnspec) end
   | OSdInfo k =>
       match index_of (d_slots d) k 0, file_get d k with
       | Some _, Some sets => (d, ok1 (Z.of_nat (length sets)))
       | _, _ => (d, RUnspec) end
   | OSdName k i =>
       match index_of (d_slots d) k 0, file_get d k with
-      | Some _, Some sets => match nthz sets i with Some (nl, rk) => (d, ROk [Some nl; Some rk]) | None => (d, RFail []) end
+      | Some _, Some sets => match nthz sets i with
+                             | Some (nl, rk) => if nl <? 0 then (d, RUnspec) else (d, ROk [Some nl; Some rk])
+                             | None => (d, RFail []) end
       | _, _ => (d, RUnspec) end
   | OSdMax n =>
       if n <? 0 then (d, RFail [])
@@ -548,7 +614,7 @@ Definition is_h (o : op) : bool :=
 Definition is_d (o : op) : bool :=
   match o with
   | OSdLimit _ | OSdStart _ | OSdOpen _ | OSdEnd _ | OSdCreate _ _ _ | OSdInfo _ | OSdName _ _ | OSdMax _ | OSdGetMax
-  | OSdNOpen => true | _ => false end.
+  | OSdNOpen | OSdAttr _ _ _ _ _ | OSdAttrInfo _ _ _ => true | _ => false end.
 
 (** reopening the file detaches every Vgroup and Vdata *)
 Definition detach_all (v : vst) : vst :=
@@ -625,3 +691,5 @@ Definition s_vpackvs_size (fnames : list Z) (namelen classlen : Z) : Z :=
 (** a lower bound of the buffer VSdetach provides: sizeof(VWRITELIST) holds VSFIELDMAX names of FIELDNAMELENMAX+1
     bytes and six 16-bit arrays of VSFIELDMAX entries *)
 Definition vh_buffer_lower_bound : Z := VSFIELDMAX * (FIELDNAMELENMAX + 1) + 6 * 2 * VSFIELDMAX.
+
+Definition s_setattr (sz count : Z) : bool := (1 <=? count) && (count <=? MAX_ORDER) && (count * sz <=? MAX_FIELD_SIZE).
